@@ -1,6 +1,6 @@
 #!/bin/bash
 # usage: run_patch.sh <patch.diff> PROP [PROP...] — apply to /repo, run checks, restore
 P=$1; shift
-git -C /repo apply "$P" || { echo "PATCH DOES NOT APPLY"; exit 3; }
+git -C /repo apply "$(realpath "$P")" || { echo "PATCH DOES NOT APPLY"; exit 3; }
 for prop in "$@"; do /verif/check $prop 2>&1 | grep -v "^KNOWN-FINDING" | tail -6; done
 git -C /repo checkout -- .
